@@ -38,7 +38,7 @@ var (
 )
 
 func TestMain(m *testing.M) {
-	rec.Rule("cases = relic-signed artefacts (generated inputs where a generator exists; drawn key and digest) checked by code that shares nothing with relic: jarsigner -verify -strict (JAR), openssl cms -verify on the JAR signature block over the .SF file, gpgv (PGP detached/clearsign/inline, DEB role members, RPM header and header+payload signatures), dpkg-deb, md5sum/sha1sum of DEB members against the signed list, and reference computations from the specifications compared with the digest embedded in the signature: Authenticode PE image hash and page hashes, PE checksum, APK Signature Scheme v2 chunked digest (members around the 1 MiB chunk size), MSI stream-order digest; Authenticode SignedData verified by an independent DER walker + Go crypto; Mach-O code signatures (page hashes, special slots, CMS over the CodeDirectory) and xar checksum / RSA / CMS signatures re-verified by a hand-written walk of the formats; VSIX packages with generated part names (', >, &, ;, %, non-ASCII) validated by the JDK; non-trivial = generated input with >= 2 layout classes or a non-default key/digest; distinct = (format, input sha256, key, digest, tool)")
+	rec.Rule("cases = relic-signed artefacts (generated inputs where a generator exists; drawn key and digest) checked by code that shares nothing with relic: jarsigner -verify -strict (JAR), openssl cms -verify on the JAR signature block over the .SF file, gpgv (PGP detached/clearsign/inline, DEB role members, RPM header and header+payload signatures), dpkg-deb, md5sum/sha1sum of DEB members against the signed list, and reference computations from the specifications compared with the digest embedded in the signature: Authenticode PE image hash and page hashes, PE checksum, APK Signature Scheme v2 chunked digest (members around the 1 MiB chunk size), MSI stream-order digest; Authenticode SignedData verified by an independent DER walker + Go crypto; Mach-O code signatures (page hashes, special slots, CMS over the CodeDirectory) and xar checksum / RSA / CMS signatures re-verified by a hand-written walk of the formats; RFC 3161 tokens sit under the attribute the ecosystem reads (id-aa-timeStampToken for JAR, the Microsoft attribute for Authenticode) and are good over the signature value; VSIX packages with generated part names (', >, &, ;, %, non-ASCII) validated by the JDK; non-trivial = generated input with >= 2 layout classes or a non-default key/digest; distinct = (format, input sha256, key, digest, tool)")
 	rec.Assume("Windows, macOS and Android platform verifiers are not available offline; their acceptance is approximated by specification-derived reference computations")
 	rec.Assume("the page-hash reference has documented uncertainties (first-page padding, terminator offset for section-less images); those shapes are compared but a disagreement confined to them is reported as such")
 	var err error
